@@ -83,6 +83,7 @@ CASES = [
     ("ceil_int", "def f(a, b):\n    n = int(torch.ceil(a[0] / 3))\n    return torch.ones(n + 1)", (1,), (1,)),
     ("python_int_division", "def f(a, b):\n    return torch.tensor([int(7 / 2), 7 // 2, -7 // 2, 7 % 3, -7 % 3, int(-3.5)])", (1,), (1,)),
     ("tuple_unpack_comprehension", "def f(a, b):\n    rows = [a[i] * (i + 1) for i in range(a.shape[0]) if i != 1]\n    return torch.stack(rows)", (3, 2), (1,)),
+    ("sort_values", "def f(a, b):\n    return torch.sort(a).values", (6,), (1,)),
     ("tensor_from_nested", "def f(a, b):\n    return torch.tensor([[a[0].item(), 1.0], [2, a[1].item()]])", (2,), (1,)),
 ]
 
@@ -227,6 +228,8 @@ def tpv_run(name, src, a, b):
         shape = [d.concrete() for d in v.shape]
         indices = v.all_indices()
     vals = []
+    for idx in indices:
+        v.at(idx)  # instantiate the axioms-on-access of every element first (e.g. the permutation of torch.sort)
     for idx in indices:
         t = core.zreal(v.at(idx)) if v.dtype != "bool" else z3.If(v.at(idx), z3.RealVal(1), z3.RealVal(0))
         if model is not None:
